@@ -76,9 +76,9 @@ MUTATORS = ("update", "pop", "clear", "add", "discard", "remove", "setdefault", 
 
 
 def check_not_mutated_at_top(tree, name, fname):
-    """No statement OUTSIDE function/class bodies may rebind or mutate the table (inside PDDLWriter.__init__ the
-    alias `self.pddl_keywords |= X` mutates GENERAL_PDDL_KEYWORDS at run time; that is modelled: the model takes the
-    writer's actual keyword set as a parameter and the theorems hold for every subset of all tables)."""
+    """No statement OUTSIDE function/class bodies may rebind or mutate the table.  (What PDDLWriter.__init__ puts into
+    self.pddl_keywords is read by pddl_init_tables; the model takes the writer's actual keyword set as a parameter and
+    the theorems hold for every subset of the union of those tables.)"""
     n_assign = 0
     for s in tree.body:
         if isinstance(s, (ast.FunctionDef, ast.ClassDef, ast.AsyncFunctionDef)):
@@ -313,6 +313,9 @@ def pddl_init_tables(tree, fname):
             tgt, val, aug = n.target, n.value, False
         if tgt is None or not (isinstance(tgt, ast.Attribute) and tgt.attr == "pddl_keywords"):
             continue
+        if not aug and isinstance(val, ast.Call) and isinstance(val.func, ast.Name) and val.func.id == "set" \
+                and len(val.args) == 1 and not val.keywords:
+            val = val.args[0]            # set(TABLE): the writer's own copy of the table
         if not (isinstance(val, ast.Name) and val.id in PDDL_TABLES):
             die(n, "self.pddl_keywords is assigned something that is not one of the keyword tables", fname)
         if aug:
@@ -489,7 +492,7 @@ def emit(data):
              "CONTINGENT_PDDL_KEYWORDS": "pddl_contingent_keywords"}
     for t in PDDL_TABLES:
         w("Definition %s : list string :=\n  %s.\n" % (names[t], gstrings(data[t])))
-    w("(* PDDLWriter.__init__: self.pddl_keywords = %s, then |= each of %s under a condition on the problem *)" % (
+    w("(* PDDLWriter.__init__: self.pddl_keywords = (a copy of) %s, then |= some of %s *)" % (
         data["pddl_base_table"], ", ".join(data["pddl_extra_tables"]) or "(nothing)"))
     w("Definition pddl_base_keywords : list string := %s." % names[data["pddl_base_table"]])
     w("Definition pddl_optional_keywords : list (list string) := [%s]." % "; ".join(
